@@ -406,6 +406,18 @@ def _links_compose(c, ctx, lay):
                 els = positions_of_bytes(x)
                 top = _top_level(els)
                 return ('bytes', tuple(id(e) for e in top))
+            if isinstance(x, Sym) and x.op == 'phi' and x.args and all(isinstance(a, (BytesV, bytes)) for a in x.args):
+                # the length of "A or B" (an early return of the body against prefix + body): the elements of either alternative -
+                # the ones only one alternative writes are optional elements of the layout and count when they are present
+                els = []
+                for a in x.args:
+                    if isinstance(a, BytesV):
+                        for e in positions_of_bytes(a):
+                            if not any(e is y for y in els):
+                                els.append(e)
+                top = _top_level(els)
+                if top:
+                    return ('bytes', tuple(id(e) for e in top))
             els = by_val.get(_vkey(x)) or by_val.get(_vkey(_unwrap_copy(x)))
             if els:
                 e = els[0]
